@@ -104,7 +104,7 @@ var booleanFlags = map[string]bool{
 }
 
 var flagSet = flag.NewFlagSet("garble", flag.ExitOnError)
-var rxGarbleFlag = regexp.MustCompile(`-(?:literals|tiny|debug|debugdir|seed)(?:$|=)`)
+var rxGarbleFlag = regexp.MustCompile(`^--?(?:literals|tiny|debug|debugdir|seed)(?:$|=)`)
 
 var (
 	flagLiterals bool
@@ -356,9 +356,19 @@ This command wraps "go %s". Below is its help:
 %s`[1:], command, command, out)
 		return nil, errJustExit(2)
 	}
-	for _, flag := range flags {
+	for i := 0; i < len(flags); i++ {
+		flag := flags[i]
 		if rxGarbleFlag.MatchString(flag) {
 			return nil, fmt.Errorf("garble flags must precede command, like: garble %s build ./pkg", flag)
+		}
+		// Skip over the value of a "-name value" flag, which may look like
+		// anything, such as "-o out-tiny". See splitFlagsFromArgs.
+		name := flag
+		if strings.HasPrefix(name, "--") {
+			name = name[1:]
+		}
+		if !booleanFlags[name] && !strings.Contains(flag, "=") {
+			i++
 		}
 	}
 
